@@ -337,13 +337,19 @@ func (p *printer) tag(l bool, content string, r bool) string {
 		s += p.sp.Sp
 	}
 	s += content
-	if !p.sp.Tight || strings.HasSuffix(content, "-") {
+	if !p.sp.Tight || strings.HasSuffix(content, "-") || runsInto(content, p.sp.Delims[3]) {
 		s += p.sp.Sp
 	}
 	if r {
 		s += "-"
 	}
 	return s + p.sp.Delims[3]
+}
+
+// runsInto: written without a space, the end of the content and the closing delimiter would read differently
+// ("b[-2]" + "]]": the scanner takes the first "]]")
+func runsInto(content, closer string) bool {
+	return content != "" && closer != "" && content[len(content)-1] == closer[0]
 }
 
 func (p *printer) object(l bool, content string, r bool) string {
@@ -355,7 +361,7 @@ func (p *printer) object(l bool, content string, r bool) string {
 		s += p.sp.Sp
 	}
 	s += content
-	if !p.sp.Tight || strings.HasSuffix(content, "-") {
+	if !p.sp.Tight || strings.HasSuffix(content, "-") || runsInto(content, p.sp.Delims[1]) {
 		s += p.sp.Sp
 	}
 	if r {
@@ -494,7 +500,22 @@ func (p *printer) node1(it *item) (string, error) {
 		return p.tag(it.l, "include"+sp+e, it.r), nil
 	case "raw", "comment":
 		name := jstr(n, "t")
-		return p.tag(it.l, name, false) + bytesOf(n["s"]) + p.tag(false, "end"+name, it.r), nil
+		body, end := bytesOf(n["s"]), p.tag(false, "end"+name, it.r)
+		// the end tag must still be found where it stands: no opening delimiter may straddle the end of the body
+		// ("...<" + "<? endraw ?>" reads as "<<" with custom delimiters)
+		for i, d := range []string{p.sp.Delims[0], p.sp.Delims[2]} {
+			for k := 1; k < len(d); k++ {
+				if strings.HasSuffix(body, d[:k]) && strings.HasPrefix(end, d[k:]) {
+					return "", fmt.Errorf("body %q runs into its end tag", body)
+				}
+			}
+			// (the generated bodies hold complete tags and objects in the default spelling only: an opening custom
+			// delimiter in them could pair with a closing one further down and swallow the end tag)
+			if d != []string{"{{", "{%"}[i] && strings.Contains(body, d) {
+				return "", fmt.Errorf("body %q holds an opening delimiter", body)
+			}
+		}
+		return p.tag(it.l, name, false) + body + end, nil
 	case "capture":
 		b, leadR, trailL, err := p.body(jarr(n, "body"))
 		if err != nil {
